@@ -418,10 +418,12 @@ impl RaftStorage<ClientRequest, ClientResponse> for FileStore {
             .send(StateApplyRequest::ApplySnapshot { snapshot })
             .await??;
         //清除废弃日志
+        // delete_through == None: all entries of the log are to be deleted (the local log ends
+        // at or below the snapshot), the snapshot pointer starts a new log file
         let split_off_index = if let Some(v) = delete_through {
             v + 1
         } else {
-            0
+            u64::MAX
         };
         self.log_manager
             .send(RaftLogManagerRequest::SplitOff(split_off_index))
